@@ -1,11 +1,13 @@
 //! C17: cutting and clipping (split_segment, split_aabb, Aabb::difference, clip_aabb_line & co,
-//! clip_halfspace_polygon, Aabb::clip_polygon, clip_segment_segment; TriMesh split / plane section: oracle-only).
+//! clip_halfspace_polygon, Aabb::clip_polygon, clip_segment_segment; TriMesh split / plane section, intersect_meshes and
+//! TriMesh::intersection_with_{local_cuboid, cuboid, aabb}: oracle-only).
 use crate::util::*;
 use crate::p3::bounding_volume::Aabb;
 use crate::p3::na::Unit;
 use crate::p3::query::details::{clip_aabb_line, clip_halfspace_polygon};
 use crate::p3::query::{IntersectResult, Ray, SplitResult};
-use crate::p3::shape::{Ball, Cuboid, Cylinder, Segment, TriMesh, TriMeshFlags};
+use crate::p3::shape::{Ball, Cone, Cuboid, Cylinder, Segment, TriMesh, TriMeshFlags};
+use crate::p3::transformation::intersect_meshes;
 
 type P3 = d3::Point<f64>;
 type V3 = d3::Vector<f64>;
@@ -123,7 +125,176 @@ pub fn exec(func: &str, a: &mut Args) -> String {
                     s.push_str(&format!(" {}", pl.indices().len()));
                     for e in pl.indices() { s.push_str(&format!(" {} {}", e[0], e[1])); }
                     s } } }
+        // intersect_meshes(pos1, mesh1, false, pos2, mesh2, false); result vertices are in world space
+        "mesh_isect" => { let (m1, _) = solid(a); let p1 = d3::iso(a); let (m2, _) = solid(a); let p2 = d3::iso(a);
+            match intersect_meshes(&p1, &m1, false, &p2, &m2, false) {
+                Err(e) => format!("err {}", format!("{:?}", e).split(|c: char| !c.is_alphanumeric()).next().unwrap_or("?")),
+                Ok(None) => "none".into(), Ok(Some(m)) => format!("some {}", fmesh(&m)) } }
+        // TriMesh::intersection_with_{local_cuboid (0), cuboid (1), aabb (2)}; result vertices are in the mesh's local space
+        "isect_cuboid" => { let variant = a.u(); let (m, _) = solid(a); let pm = d3::iso(a); let he = d3::v(a); let pc = d3::iso(a);
+            let cuboid = Cuboid::new(he);
+            let r = match variant {
+                0 => m.intersection_with_local_cuboid(false, &cuboid, &pm.inv_mul(&pc), false, 0.0),
+                1 => m.intersection_with_cuboid(&pm, false, &cuboid, &pc, false, 0.0),
+                _ => m.intersection_with_aabb(&pm, false, &Aabb::from_half_extents(P3::from(pc.translation.vector), he), false, 0.0) };
+            match r {
+                Err(e) => format!("err {}", format!("{:?}", e).split(|c: char| !c.is_alphanumeric()).next().unwrap_or("?")),
+                Ok(None) => "none".into(), Ok(Some(m)) => format!("some {}", fmesh(&m)) } }
         _ => "nofn".into(),
+    }
+}
+
+/// closed oriented solid argument: `cc(0/1) nverts verts… ntris idx… nparts (mins maxs)…`; `parts` = boxes whose union is the
+/// solid when it is not convex (read by the oracle only). Flags: HALF_EDGE_TOPOLOGY | ORIENTED (| CONNECTED_COMPONENTS).
+fn solid(a: &mut Args) -> (TriMesh, usize) {
+    let cc = a.b();
+    let v = pts(a);
+    let n = a.u();
+    let idx: Vec<[u32; 3]> = (0..n).map(|_| [a.u() as u32, a.u() as u32, a.u() as u32]).collect();
+    let np = a.u();
+    for _ in 0..np { let _ = aabb(a); }
+    let mut flags = TriMeshFlags::HALF_EDGE_TOPOLOGY | TriMeshFlags::ORIENTED;
+    if cc { flags |= TriMeshFlags::CONNECTED_COMPONENTS; }
+    (TriMesh::with_flags(v, idx, flags).expect("mesh"), np)
+}
+struct Solid { v: Vec<P3>, idx: Vec<[u32; 3]>, parts: Vec<Aabb>, centre: P3, inradius: f64, radius: f64 }
+fn hsolid(cc: bool, s: &Solid) -> String {
+    let mut o = format!("{} {} {}", b(cc), hpts(&s.v), s.idx.len());
+    for t in &s.idx { o.push_str(&format!(" {} {} {}", t[0], t[1], t[2])); }
+    o.push_str(&format!(" {}", s.parts.len()));
+    for p in &s.parts { o.push(' '); o.push_str(&haabb(p)); }
+    o
+}
+/// a closed oriented solid of "size" about `size`, not centred at its local origin when `offc`:
+/// `centre` = a point well inside, `inradius` = radius of a ball around `centre` inside the solid (conservative),
+/// `radius` = radius of a ball around `centre` containing it
+fn gen_solid(r: &mut Rng, lat: bool, size: f64, offc: bool, allow_l: bool, force: Option<u64>) -> Solid {
+    let kind = r.below(if allow_l { 7 } else { 6 });
+    let kind = force.unwrap_or(kind);
+    let (mut v, idx, mut parts, mut centre, inr): (Vec<P3>, Vec<[u32; 3]>, Vec<Aabb>, P3, f64) = match kind {
+        0 | 1 => { let he = V3::new(size * *r.pick(&[0.5, 1.0, 1.5]), size * *r.pick(&[0.75, 1.0]), size * *r.pick(&[0.5, 1.0, 1.25]));
+            let (v, i) = Cuboid::new(he).to_trimesh(); (v, i, vec![], P3::origin(), he.min()) }
+        2 => { let rad = size * *r.pick(&[1.0, 1.5]); let (v, i) = Ball::new(rad).to_trimesh(*r.pick(&[5, 6, 8]), *r.pick(&[5, 6]));
+            (v, i, vec![], P3::origin(), rad * 0.55) }
+        3 => { let (hh, rad) = (size * *r.pick(&[0.75, 1.0, 1.5]), size * *r.pick(&[0.75, 1.0])); let (v, i) = Cylinder::new(hh, rad).to_trimesh(*r.pick(&[5, 6, 8]));
+            (v, i, vec![], P3::origin(), hh.min(rad * 0.55)) }
+        4 => { let (hh, rad) = (size * *r.pick(&[1.0, 1.5]), size * *r.pick(&[1.0, 1.25])); let (v, i) = Cone::new(hh, rad).to_trimesh(*r.pick(&[5, 6, 8]));
+            (v, i, vec![], P3::new(0.0, -hh * 0.5, 0.0), hh.min(rad) * 0.2) }
+        5 => { // octahedron (bipyramid): eight large slanted faces
+            let (a, b2, c) = (size * *r.pick(&[1.0, 1.5]), size * *r.pick(&[1.0, 1.25, 2.0]), size * *r.pick(&[0.75, 1.0]));
+            let v = vec![P3::new(a, 0.0, 0.0), P3::new(-a, 0.0, 0.0), P3::new(0.0, b2, 0.0), P3::new(0.0, -b2, 0.0), P3::new(0.0, 0.0, c), P3::new(0.0, 0.0, -c)];
+            let idx = vec![[0u32, 2, 4], [2, 1, 4], [1, 3, 4], [3, 0, 4], [2, 0, 5], [1, 2, 5], [3, 1, 5], [0, 3, 5]];
+            (v, idx, vec![], P3::origin(), 1.0 / (1.0 / (a * a) + 1.0 / (b2 * b2) + 1.0 / (c * c)).sqrt()) }
+        _ => { // L-shaped prism, union of two boxes; `centre` inside the long leg
+            let poly = [(0.0, 0.0), (2.0, 0.0), (2.0, 1.0), (1.0, 1.0), (1.0, 2.0), (0.0, 2.0), (0.0, 1.0)];
+            let caps = [[0u32, 1, 2], [0, 2, 3], [0, 3, 6], [6, 3, 4], [6, 4, 5]];
+            let n = poly.len() as u32; let s = size;
+            let mut v: Vec<P3> = poly.iter().map(|p| P3::new(p.0 * s, p.1 * s, 0.0)).collect();
+            v.extend(poly.iter().map(|p| P3::new(p.0 * s, p.1 * s, s)));
+            let mut idx = Vec::new();
+            for t in caps.iter() { idx.push([t[0] + n, t[1] + n, t[2] + n]); idx.push([t[0], t[2], t[1]]); }
+            for k in 0..n { let p = k; let q = (k + 1) % n; idx.push([p, q, q + n]); idx.push([p, q + n, p + n]); }
+            let parts = vec![Aabb::new(P3::new(0.0, 0.0, 0.0), P3::new(2.0 * s, s, s)), Aabb::new(P3::new(0.0, 0.0, 0.0), P3::new(s, 2.0 * s, s))];
+            (v, idx, parts, P3::new(1.25 * s, 0.5 * s, 0.5 * s), 0.5 * s) }
+    };
+    if offc {
+        let shift = if lat { d3::gen_v(r, true, 1.0) * size } else { d3::gen_v(r, false, 2.0 * size) };
+        for p in v.iter_mut() { *p += shift; }
+        for p in parts.iter_mut() { p.mins += shift; p.maxs += shift; }
+        centre += shift;
+    }
+    let radius = v.iter().map(|p| (p - centre).norm()).fold(0.0, f64::max);
+    Solid { v, idx, parts, centre, inradius: inr, radius }
+}
+/// exact 90-degree-family rotations that keep a box axis-aligned and are exact in binary64
+fn gen_axis_perm_quat(r: &mut Rng) -> [f64; 4] {
+    match r.below(3) {
+        0 => [0.0, 0.0, 0.0, 1.0],
+        1 => { let mut q = [0.0; 4]; q[r.below(3) as usize] = 1.0; q }
+        _ => { let mut q = [0.5; 4]; for x in q.iter_mut().take(3) { if r.bool() { *x = -*x; } } q }
+    }
+}
+fn iso_of(q: [f64; 4], t: V3) -> d3::Isometry<f64> {
+    d3::Isometry::from_parts(d3::na::Translation3::from(t), Unit::new_unchecked(d3::na::Quaternion::new(q[3], q[0], q[1], q[2])))
+}
+
+/// intersect_meshes / intersection_with_cuboid families (general position unless stated)
+fn gen_isect(r: &mut Rng, v: &mut Vec<(String, String)>, n: usize) {
+    for it in 0..n {
+        let lat = it % 2 == 0;
+        let fam = it % 4;
+        let (cc1, cc2) = (r.below(3) == 0, r.below(3) == 0);
+        match fam {
+            // (a) NESTED: inner strictly inside outer, arbitrary relative pose, outer not centred on its origin; both orders
+            0 | 1 => {
+                // every fourth nested case: the inner solid is a scaled copy of the outer one with the same orientation, so
+                // that every face of one operand is parallel to (and not coplanar with) a face of the other
+                let similar = it % 16 == 4 || it % 16 == 9;
+                let force = if similar { Some(4 + r.below(2)) } else { None };
+                let outer = gen_solid(r, lat, 4.0, true, true, force);
+                let oc = r.bool(); let inner = gen_solid(r, lat, 1.0, oc, true, None);
+                let inner = if similar { let c = outer.centre.coords;
+                    Solid { v: outer.v.iter().map(|p| P3::from(p.coords - c)).collect(), idx: outer.idx.clone(),
+                            parts: outer.parts.iter().map(|b| Aabb::new(b.mins - c, b.maxs - c)).collect(), centre: P3::origin(), inradius: outer.inradius, radius: outer.radius } } else { inner };
+                let k = (outer.inradius * 0.45 / inner.radius).min(1.0); // scale the inner solid so that it fits
+                let inner = Solid { v: inner.v.iter().map(|p| P3::from(p.coords * k)).collect(), parts: inner.parts.iter().map(|b| Aabb::new(P3::from(b.mins.coords * k), P3::from(b.maxs.coords * k))).collect(),
+                    centre: P3::from(inner.centre.coords * k), radius: inner.radius * k, inradius: inner.inradius * k, idx: inner.idx };
+                let pos_o = d3::gen_iso(r, lat, 5.0);
+                // world position of the inner centre: outer centre + offset within 0.45 * inradius
+                let off = loop { let o = d3::gen_v(r, false, 1.0); if o.norm() <= 1.0 { break o * (outer.inradius * 0.45); } };
+                let target = pos_o * (outer.centre + off);
+                let q = d3::gen_quat(r, lat);
+                let q = if similar { let c = pos_o.rotation.as_ref().coords; [c[0], c[1], c[2], c[3]] } else { q };
+                let rot = iso_of(q, V3::zeros());
+                let pos_i = iso_of(q, target.coords - (rot * inner.centre).coords);
+                if fam == 0 || outer.parts.len() + inner.parts.len() > 0 {
+                    let (a, b2) = (format!("{} {}", hsolid(cc1, &inner), d3::hiso(&pos_i)), format!("{} {}", hsolid(cc2, &outer), d3::hiso(&pos_o)));
+                    v.push(("mesh_isect".into(), format!("{} {}", a, b2)));
+                    v.push(("mesh_isect".into(), format!("{} {}", b2, a)));
+                } else {
+                    // a cuboid strictly inside the mesh `outer`, through the three cuboid entry points
+                    let he = V3::new(inner.radius, inner.radius * 0.5, inner.radius * 0.75) * 0.5;
+                    let variant = r.below(3);
+                    let pc = if variant == 2 { iso_of([0.0, 0.0, 0.0, 1.0], target.coords) } else { iso_of(q, target.coords) };
+                    let he = if variant == 2 { he * 0.5 } else { he };
+                    v.push(("isect_cuboid".into(), format!("{} {} {} {} {}", variant, hsolid(cc2, &outer), d3::hiso(&pos_o), d3::hv(&he), d3::hiso(&pc))));
+                }
+            }
+            // (b) DISJOINT (every fourth case) / (c) generic-position partial overlaps of convex solids
+            2 => {
+                let oc = r.bool(); let s1 = gen_solid(r, lat, 2.0, oc, false, None);
+                let oc = r.bool(); let s2 = gen_solid(r, lat, 2.0, oc, false, None);
+                let p1 = d3::gen_iso(r, false, 3.0);
+                let dir = loop { let o = d3::gen_v(r, false, 1.0); if o.norm() > 0.2 { break o.normalize(); } };
+                let disjoint = it % 16 == 2;
+                let dist = if disjoint { (s1.radius + s2.radius) * 1.5 + 1.0 } else { (s1.inradius + s2.inradius) * r.uniform(0.5, 1.1) };
+                let c1 = p1 * s1.centre;
+                let q = d3::gen_quat(r, false);
+                let rot = iso_of(q, V3::zeros());
+                let p2 = iso_of(q, c1.coords + dir * dist - (rot * s2.centre).coords);
+                if r.below(4) == 0 && s2.parts.is_empty() {
+                    // the second operand as a cuboid
+                    let he = V3::new(s2.inradius * 1.5, s2.inradius, s2.inradius * 1.25);
+                    let variant = r.below(3);
+                    let pc = if variant == 2 { iso_of([0.0, 0.0, 0.0, 1.0], c1.coords + dir * dist) } else { iso_of(q, c1.coords + dir * dist) };
+                    v.push(("isect_cuboid".into(), format!("{} {} {} {} {}", variant, hsolid(cc1, &s1), d3::hiso(&p1), d3::hv(&he), d3::hiso(&pc))));
+                } else {
+                    v.push(("mesh_isect".into(), format!("{} {} {} {}", hsolid(cc1, &s1), d3::hiso(&p1), hsolid(cc2, &s2), d3::hiso(&p2))));
+                }
+            }
+            // (c) BOX-BOX partial overlap under translations and axis-permuting rotations: the intersection is an axis-aligned box
+            _ => {
+                let he1 = V3::new(*r.pick(&[1.0, 1.5, 2.0]), *r.pick(&[1.0, 1.25]), *r.pick(&[0.75, 1.0, 2.0]));
+                let he2 = V3::new(*r.pick(&[1.0, 1.75]), *r.pick(&[0.5, 1.5]), *r.pick(&[1.0, 1.25]));
+                let (v1, i1) = Cuboid::new(he1).to_trimesh(); let (v2, i2) = Cuboid::new(he2).to_trimesh();
+                let mk = |v: Vec<P3>, idx: Vec<[u32; 3]>| Solid { v, idx, parts: vec![], centre: P3::origin(), inradius: 0.0, radius: 0.0 };
+                let p1 = iso_of(gen_axis_perm_quat(r), d3::gen_v(r, true, 2.0));
+                // offsets k/32 with odd k: no coincident face planes, and the piercing points stay off the face diagonals
+                let t = V3::new(r.range(-8, 8) as f64 / 8.0 + 3.0 / 32.0, r.range(-6, 6) as f64 / 8.0 + 5.0 / 32.0, r.range(-6, 6) as f64 / 8.0 - 7.0 / 32.0);
+                let p2 = iso_of(gen_axis_perm_quat(r), p1.translation.vector + t);
+                v.push(("mesh_isect".into(), format!("{} {} {} {}", hsolid(cc1, &mk(v1, i1)), d3::hiso(&p1), hsolid(cc2, &mk(v2, i2)), d3::hiso(&p2))));
+            }
+        }
     }
 }
 
@@ -380,5 +551,7 @@ pub fn gen(r: &mut Rng, thorough: bool) -> Vec<(String, String)> {
             }
         }
     }
+    // ---- intersect_meshes / TriMesh::intersection_with_{local_cuboid, cuboid, aabb} (oracle-only), after the other streams
+    gen_isect(r, &mut v, if thorough { 1600 } else { 200 });
     v
 }
